@@ -271,7 +271,7 @@ type parProgram struct {
 var parGen = rapid.Custom(func(t *rapid.T) parProgram {
 	p := parProgram{}
 	p.Container = []string{"map", "mapof", "cache", "cacheof"}[uniform(t, 4, "container")]
-	p.Profile = []string{"write", "read", "range", "settings", "resize", "janitor", "bigtable", "shrinkedge"}[uniform(t, 8, "profile")]
+	p.Profile = []string{"write", "read", "range", "settings", "resize", "janitor", "bigtable", "shrinkedge", "multi"}[uniform(t, 9, "profile")]
 	p.G = []int{2, 3, 4, 8, 16, 32, 64}[uniform(t, 7, "goroutines")]
 	p.Ops = []int{50, 200, 600, 2000}[uniform(t, 4, "ops")]
 	if p.G >= 32 && p.Ops > 600 {
@@ -296,6 +296,13 @@ var parGen = rapid.Custom(func(t *rapid.T) parProgram {
 		p.G = []int{3, 4, 6}[uniform(t, 3, "edgeG")]
 		p.Ops = []int{100, 200}[uniform(t, 2, "edgeOps")]
 		p.Rounds = 16
+	}
+	if p.Profile == "multi" {
+		// every goroutine owns containers of its own and keeps constructing, growing, draining and clearing them:
+		// whatever the package shares BETWEEN containers (seed sources, pools, registries) is exercised concurrently
+		p.G = []int{2, 4, 8, 16}[uniform(t, 4, "multiG")]
+		p.Ops = []int{6, 12, 24}[uniform(t, 3, "multiRounds")] // containers per goroutine
+		p.Keys = []int{40, 200, 700}[uniform(t, 3, "multiKeys")]
 	}
 	p.Seed = rapid.Uint64().Draw(t, "seed")
 	return p
@@ -373,7 +380,71 @@ func runPar(p parProgram) (string, map[string]int64) {
 	return "", total
 }
 
+// runMulti: profile "multi" — no container is shared; the goroutines share only the package.
+func runMulti(p parProgram) (string, map[string]int64) {
+	var wg sync.WaitGroup
+	var bad atomic.Value
+	var evs, made, calls int64
+	start := make(chan struct{})
+	for g := 0; g < p.G; g++ {
+		wg.Add(1)
+		go func(g int) {
+			defer wg.Done()
+			defer func() {
+				if r := recover(); r != nil {
+					bad.Store(fmt.Sprintf("goroutine %d panicked: %v", g, r))
+				}
+			}()
+			r := &prng{s: p.Seed + uint64(g)*0x1234567}
+			<-start
+			for round := 0; round < p.Ops; round++ {
+				q := p
+				q.Profile = []string{"write", "janitor"}[r.next()%2]
+				q.Container = []string{"map", "mapof", "cache", "cacheof"}[(uint64(g)+r.next())%4]
+				c := buildRC(q, &evs)
+				atomic.AddInt64(&made, 1)
+				n := int(r.next()%uint64(p.Keys)) + 1
+				for i := 0; i < n; i++ {
+					c.set(i, newPayload(r.next()), cache.NoExpiration)
+				}
+				for i := 0; i < n; i++ {
+					if pl, ok := c.get(i); !ok || pl == nil || !pl.ok() {
+						bad.Store(fmt.Sprintf("goroutine %d: key %d of its own private container reads back (%v,%v)", g, i, pl, ok))
+						return
+					}
+				}
+				if c.size() != n {
+					bad.Store(fmt.Sprintf("goroutine %d: private container holds %d entries after storing %d", g, c.size(), n))
+					return
+				}
+				if r.next()%2 == 0 {
+					c.clear()
+				} else {
+					for i := n - 1; i >= 0; i-- {
+						c.del(i)
+					}
+				}
+				if c.size() != 0 {
+					bad.Store(fmt.Sprintf("goroutine %d: private container holds %d entries after removing everything", g, c.size()))
+					return
+				}
+				atomic.AddInt64(&calls, int64(3*n+3))
+			}
+		}(g)
+	}
+	close(start)
+	wg.Wait()
+	cm := map[string]int64{"containers_constructed": atomic.LoadInt64(&made), "set": atomic.LoadInt64(&calls)}
+	if b := bad.Load(); b != nil {
+		return b.(string), cm
+	}
+	return "", cm
+}
+
 func runParRound(p parProgram) (string, map[string]int64) {
+	if p.Profile == "multi" {
+		return runMulti(p)
+	}
 	var evs int64
 	c := buildRC(p, &evs)
 	if p.Profile == "shrinkedge" {
@@ -515,7 +586,7 @@ func TestC14(t *testing.T) {
 		for k, v := range cm {
 			stats.Add("calls_"+k, v)
 		}
-		if p.G >= 2 && (p.Keys <= 400 || p.Profile == "bigtable") {
+		if p.G >= 2 && (p.Keys <= 400 || p.Profile == "bigtable" || p.Profile == "multi") {
 			stats.NonTrivial(stats.Hash64(string(pj)))
 		}
 		stats.Sample(map[string]interface{}{"program": p, "calls": cm})
